@@ -202,7 +202,73 @@ impl Samples for DiscrData {
     fn candidates() -> Vec<Self> { vec![DiscrData::Data(300), DiscrData::Ack, DiscrData::Pair(1, true), DiscrData::Next] }
 }
 
+// ------------------------------------------------------------------ opportunistic catalogue (C14 / C17)
+// core / std types for which the crate has NO Schema impl today; if one appears it is checked at once against the
+// RECORDED call trees of real values (the `conf` op needs no model of the type: real schema, real calls, real bytes)
+struct ProbeS<T>(core::marker::PhantomData<T>);
+trait NoSchema {
+    fn conf_lines(&self, _vals: &dyn Fn() -> Vec<(String, Vec<u8>)>) -> Vec<String> {
+        Vec::new()
+    }
+}
+impl<T> NoSchema for ProbeS<T> {}
+impl<T: Schema> ProbeS<T> {
+    fn conf_lines(&self, vals: &dyn Fn() -> Vec<(String, Vec<u8>)>) -> Vec<String> {
+        let schema = show(&OwnedDataModelType::from(T::SCHEMA));
+        vals().into_iter().map(|(ct, bytes)| format!("conf {} {} {}", ct, schema, hex(&bytes))).collect()
+    }
+}
+fn recorded<T: Serialize>(vals: &[T]) -> Vec<(String, Vec<u8>)> {
+    vals.iter().filter_map(|v| match (record(v), postcard::to_allocvec(v)) {
+        (Ok(ct), Ok(b)) => Some((ct.to_string(), b)),
+        _ => None,
+    }).collect()
+}
+macro_rules! scat {
+    ($out:ident, $t:ty, [$($x:expr),* $(,)?]) => {
+        $out.extend(ProbeS::<$t>(core::marker::PhantomData).conf_lines(&|| recorded::<$t>(&[$($x),*])));
+    };
+}
+pub fn schema_catalogue(out: &mut Vec<String>) {
+    use core::cmp::Reverse;
+    use core::num::Wrapping;
+    use core::ops::Bound;
+    use core::time::Duration;
+    use std::net::{IpAddr, Ipv4Addr, Ipv6Addr};
+    scat!(out, Duration, [Duration::MAX, Duration::new(5, 7), Duration::new(0, 0)]);
+    scat!(out, Bound<u8>, [Bound::Unbounded, Bound::Included(7), Bound::Excluded(9)]);
+    scat!(out, Bound<String>, [Bound::Unbounded, Bound::Included("a".to_string()), Bound::Excluded(String::new())]);
+    scat!(out, Wrapping<u16>, [Wrapping(300), Wrapping(0)]);
+    scat!(out, Reverse<u8>, [Reverse(3)]);
+    scat!(out, core::num::Saturating<i32>, [core::num::Saturating(-5)]);
+    scat!(out, core::marker::PhantomData<u8>, [core::marker::PhantomData]);
+    scat!(out, core::cell::Cell<u8>, [core::cell::Cell::new(4)]);
+    scat!(out, core::cell::RefCell<u16>, [core::cell::RefCell::new(400)]);
+    scat!(out, std::sync::Mutex<u8>, [std::sync::Mutex::new(1)]);
+    scat!(out, std::sync::RwLock<u8>, [std::sync::RwLock::new(1)]);
+    scat!(out, Box<u32>, [Box::new(70000)]);
+    scat!(out, Box<str>, [Box::from("hey")]);
+    scat!(out, Box<[u16]>, [Box::from(vec![1u16, 300])]);
+    scat!(out, std::borrow::Cow<'static, str>, [std::borrow::Cow::Borrowed("moo")]);
+    scat!(out, std::borrow::Cow<'static, [u8]>, [std::borrow::Cow::Borrowed(&[1u8, 2][..])]);
+    scat!(out, std::collections::VecDeque<u8>, [std::collections::VecDeque::from(vec![1u8, 2, 3])]);
+    scat!(out, std::collections::LinkedList<u8>, [std::collections::LinkedList::from([1u8, 2])]);
+    scat!(out, std::collections::BinaryHeap<u8>, [std::collections::BinaryHeap::from(vec![5u8])]);
+    scat!(out, Ipv4Addr, [Ipv4Addr::new(1, 2, 3, 4)]);
+    scat!(out, Ipv6Addr, [Ipv6Addr::new(1, 2, 3, 4, 5, 6, 7, 8)]);
+    scat!(out, IpAddr, [IpAddr::V4(Ipv4Addr::new(1, 2, 3, 4)), IpAddr::V6(Ipv6Addr::new(1, 2, 3, 4, 5, 6, 7, 8))]);
+    scat!(out, (u8, u8, u8, u8, u8, u8, u8), [(1, 2, 3, 4, 5, 6, 7)]);
+    scat!(out, (u8, u16, u32, u64, i8, i16, i32, i64), [(1, 2, 3, 4, -1, -2, -3, -4)]);
+    scat!(out, std::ffi::CString, [std::ffi::CString::new("c").unwrap()]);
+    scat!(out, std::ffi::OsString, []);
+    scat!(out, std::time::SystemTime, [std::time::UNIX_EPOCH]);
+    scat!(out, core::num::NonZeroUsize, [core::num::NonZeroUsize::MIN]);
+    scat!(out, usize, [usize::MAX]);
+    scat!(out, isize, [isize::MIN]);
+}
+
 pub fn gen_c14(r: &mut Rng, thorough: bool, out: &mut Vec<String>) {
+    schema_catalogue(out);
     let n = if thorough { 40 } else { 4 };
     gen_schemaof(out);
     for_each_corpus_type(r, n, out, false);
